@@ -230,9 +230,25 @@ def oracle_parse(case, r):
 
 
 def oracle_inspect(case, r):
+    """The generated file is a CSV file by construction (csv.writer). `direct` is what the public auto-detection
+    entry point returns for that very file."""
     if r.get('crash') and r.get('detected'):
         return 'inspect-crashes-after-detection', {'crash': r['crash']}, None
     det = r.get('detected')
+    direct = r.get('direct')
+    # a format string printed outside the auto-detection block is a suggestion for this CSV file too
+    for of in r.get('other_formats') or []:
+        rp = of['reparse']
+        ref = det or direct
+        if ref and (not rp['ok'] or any(rp[k] != ref[k] for k in ('date', 'desc', 'amount'))):
+            return 'suggestion-selects-other-columns', {'suggested': of['format'], 'reparsed': rp, 'auto_detected': ref,
+                                                        'file_type_reported': r.get('file_type')}, None
+    if direct and not det and not r.get('crash'):
+        return 'inspect-does-not-report-auto-detected-columns', {'auto_detect_csv_format': direct,
+                                                                 'file_type_reported': r.get('file_type'),
+                                                                 'section_printed': bool(r.get('section'))}, None
+    if det and direct and any(det[k] != direct[k] for k in ('date', 'desc', 'amount', 'loc', 'fmt')):
+        return 'inspect-reports-other-columns-than-auto-detect', {'reported': det, 'auto_detect_csv_format': direct}, None
     if not det:
         return None
     if any(det[k] is None for k in ('date', 'desc', 'amount')):
@@ -444,6 +460,56 @@ def data_rows(hs, style1, style2):
     return rows
 
 
+def file_type_boundary_cases():
+    """Genuine CSV files (always run) that sit just below the thresholds of inspect's fixed-width heuristic
+    (date at line start followed by blanks: 2 points when >= 3 lines; amount at end of line after a blank: 1 point
+    when >= 3 lines; long uniform lines: 1 point; 3 points = "fixed_width", no auto-detection). Each has an
+    auto-detectable header, so inspect must report and suggest its columns."""
+    cases = []
+    pad = 'X' * 70
+
+    def mk(name, headers, dates, amounts, desc='ACME STORE', extra=None):
+        rows = []
+        for j, (d, a) in enumerate(zip(dates, amounts)):
+            row = []
+            for h in headers:
+                hl = h.lower()
+                if 'date' in hl:
+                    row.append(d)
+                elif 'amount' in hl or 'debit' in hl:
+                    row.append(a)
+                elif 'desc' in hl or 'merchant' in hl:
+                    row.append(desc if extra is None else desc + ' ' + extra)
+                else:
+                    row.append('R%d' % (j + 1))
+            rows.append(row)
+        cases.append({'headers': headers, 'rows': rows, 'src': 'file-type-boundary:' + name})
+    H1 = ['Date', 'Ref', 'Description', 'Amount']
+    H2 = ['Trans Date', 'Merchant', 'Card', 'Debit']
+    days = ['01/0%d/2025' % k for k in range(2, 9)]
+    amts_sp = [' %d.50' % (k + 10) for k in range(7)]        # right-aligned: blank before the amount at end of line
+    amts = ['%d.50' % (k + 10) for k in range(7)]
+    for H in (H1, H2):
+        for n in (3, 5, 7):
+            # date + ONE blank (time / weekday / tab) ...
+            for nm, suffix in (('time', ' 08:15'), ('weekday', ' Fri'), ('tab-weekday', '\tFri'), ('time-seconds', ' 08:15:00'),
+                               ('ampm', ' 8:15 PM')):
+                ds = [d + suffix for d in days[:n]]
+                mk(f'{nm}+amount-after-blank/{n}', H, ds, amts_sp[:n])               # ... + amount indicator
+                mk(f'{nm}+long-lines/{n}', H, ds, amts[:n], extra=pad)                # ... + long uniform lines
+                mk(f'{nm}+both/{n}', H, ds, amts_sp[:n], extra=pad)                   # ... + both
+            # date + TWO blanks on >= 3 lines, no other indicator (2 points)
+            mk(f'two-blanks-only/{n}', H, [d + '  Fri' for d in days[:n]], amts[:n])
+            # no date-blank pattern, both other indicators (2 points)
+            mk(f'long-lines+amount-after-blank/{n}', H, days[:n], amts_sp[:n], extra=pad)
+            mk(f'iso-long-lines+amount-after-blank/{n}', H, ['2025-01-0%d 08:15' % k for k in range(2, 2 + n)], amts_sp[:n], extra=pad)
+        # date + TWO blanks on only 2 lines (below the 3-line minimum) + both other indicators (2 points)
+        mk('two-blanks-on-2-lines+both', H, [days[0] + '  Fri', days[1] + '  Sat', '2025-01-04', '2025-01-05'], amts_sp[:4], extra=pad)
+        # amount after a blank on only 2 lines + two-blank dates on 3 (2 points)
+        mk('two-blanks+amount-after-blank-on-2-lines', H, [d + '  Fri' for d in days[:3]], [' 1.50', ' 2.50', '3.50'])
+    return cases
+
+
 def gen_inspect_cases(seed, tier, tables):
     rnd = random.Random(seed * 104729 + 18)
     kw = {'date': tables['date_patterns'], 'desc': tables['desc_patterns'], 'amount': tables['amount_patterns'],
@@ -506,6 +572,7 @@ def gen_inspect_cases(seed, tier, tables):
     for hs in arrangements:
         for st in DATE_STYLES:
             cases.append({'headers': hs, 'rows': data_rows(hs, st, DATE_STYLES[0]), 'src': 'date-layout-corpus'})
+    cases += file_type_boundary_cases()
     cases.append({'headers': ['Date', 'Description', 'Amount'], 'rows': [['01/02/2024', 'X', '1.00']]})
     cases.append({'headers': ['Amount', 'Location', 'Name', 'Date'], 'rows': []})
     cases.append({'headers': ['Date'], 'rows': []})
